@@ -73,6 +73,8 @@ def make_geo(c, mg, tag, shape, atm, conv, surf_mode, like=None, lo=None, hi=Non
         org = src.org
         if like[1] == 'shift':
             org = [SReal(src.org[k].e + c.real('%sshift%d' % (tag, k)).e) for k in range(3)]
+        elif like[1] == 'shiftz':
+            org = [src.org[0], src.org[1], SReal(src.org[2].e + c.real('%sshift2' % tag).e)]
         elif like[1] in ('refinex', 'refinez'):
             # every source column (layer) is cut in two at a symbolic position strictly inside it
             def cut(d, axis):
@@ -84,7 +86,7 @@ def make_geo(c, mg, tag, shape, atm, conv, surf_mode, like=None, lo=None, hi=Non
                 return out
             if like[1] == 'refinex': dx = cut(dx, 'x')
             else: dz = cut(dz, 'z')
-        elif like[1] not in ('same', 'resurf'): raise KeyError(like[1])
+        elif like[1] not in ('same', 'resurf', 'shiftz'): raise KeyError(like[1])
         if (len(dx), len(dy), len(dz)) != tuple(shape): raise ValueError('shape %r does not fit relation %s' % (shape, like[1]))
     else:
         dx, dy, dz = sp('dx', nx), sp('dy', ny), sp('dz', nz)
@@ -534,8 +536,12 @@ def plan(tier):
         for sa, ta in ((0, 0), (1, 1), (0, 1), (1, 0), (2, 0)):
             T.append((task_map, dict(sshape=(2, 1, 2), tshape=(1, 2, 2), sa=sa, ta=ta, conv=conv, surf='default', rel='free')))
             T.append((task_incon, dict(sshape=(2, 1, 2), tshape=(1, 1, 2), sa=sa, ta=ta, conv=conv, surf='default', rel='free', nvar=2)))
-    T.append((task_map, dict(sshape=(3, 2, 3), tshape=(3, 2, 3), sa=1, ta=0, conv=0, surf='default', rel='shift')))
-    T.append((task_map, dict(sshape=(3, 2, 3), tshape=(2, 2, 2), sa=0, ta=1, conv=0, surf='default', rel='free')))
+    for sa, ta in ((1, 0), (0, 1), (1, 1)):
+        T.append((task_map, dict(sshape=(3, 2, 3), tshape=(3, 2, 3), sa=sa, ta=ta, conv=0, surf='default', rel='same')))
+        T.append((task_map, dict(sshape=(3, 2, 3), tshape=(3, 2, 3), sa=sa, ta=ta, conv=0, surf='default', rel='shiftz')))
+        T.append((task_incon, dict(sshape=(3, 2, 3), tshape=(3, 2, 3), sa=sa, ta=ta, conv=0, surf='default', rel='shiftz', nvar=2)))
+    T.append((task_map, dict(sshape=(3, 1, 3), tshape=(2, 1, 2), sa=0, ta=1, conv=0, surf='default', rel='free')))
+    T.append((task_map, dict(sshape=(2, 1, 2), tshape=(3, 1, 3), sa=2, ta=0, conv=0, surf='default', rel='free')))
     T.append((task_map, dict(sshape=(2, 2, 3), tshape=(4, 2, 3), sa=1, ta=1, conv=0, surf='default', rel='refinex')))
     T.append((task_map, dict(sshape=(2, 2, 3), tshape=(2, 2, 6), sa=2, ta=1, conv=0, surf='default', rel='refinez')))
     for atm in (0, 1, 2):
@@ -549,7 +555,8 @@ def plan(tier):
             for rename in (False, True):
                 T.append((task_data, dict(shape=(2, 1, 2), atm=0, conv=0, layout=layout, preserve=preserve, rename=rename)))
             T.append((task_data, dict(shape=(2, 2, 3), atm=1, conv=0, layout=layout, preserve=preserve, rename=False)))
-        T.append((task_data, dict(shape=(3, 2, 3), atm=2, conv=0, layout=layout, preserve=True, rename=False)))
+        if layout == 'A':
+            T.append((task_data, dict(shape=(3, 1, 3), atm=2, conv=0, layout=layout, preserve=True, rename=False)))
         T.append((task_data, dict(shape=(2, 1, 3), atm=1, conv=2, layout=layout, preserve=False, rename=False)))
         T.append((task_data, dict(shape=(2, 1, 3), atm=0, conv=1, layout=layout, preserve=False, rename=True)))
     return T
@@ -566,6 +573,35 @@ def run(tier, seed, rep):
     for r in results:
         if not r.get('error') and not any(k in r.get('outcomes', {}) for k in ('mapped', 'checked')):
             rep.harness_error('%s: no path reached its obligations (vacuous): %r' % (r['name'], r.get('outcomes')))
+    fams = {}
+    for f, kw in tasks: fams[f.__name__] = fams.get(f.__name__, 0) + 1
+    shapes = sorted(set('%s->%s %s' % ('x'.join(map(str, kw['sshape'])), 'x'.join(map(str, kw['tshape'])), kw['rel'])
+                        for f, kw in tasks if 'sshape' in kw))
+    rep.extra['task_families'] = fams
+    rep.bounds += ['rectangular geometry pairs built by the real rectangular(): ' + '; '.join(shapes),
+                   'spacings: any positive reals; origins: any reals; column surfaces (mode sym): any real above the bottom of the lowest layer, '
+                   'independently per column of both geometries; relation free = all numbers of the two geometries independent, '
+                   'shift/shiftz = same spacings + symbolic offset, resurf = same grid with independent surfaces, '
+                   'refinex/refinez = every source column/layer cut in two at a symbolic position, same = identical numbers',
+                   'atmosphere types: all 3x3 combinations (convention 0), 5 combinations for conventions 1-3',
+                   'primary variables: 1..4 per block, every value and porosity symbolic',
+                   't2data.transfer_from: identical geometries up to 2x2x3 and 3x1x3, spacings in [1e-3, 1e5], generator layouts A/B/C '
+                   '(top/bottom/interior, MASS/HEAT/COM1, constant and tabulated rates, enthalpy tables), preserve_totals and rename on/off']
+    rep.outside += ['scipy k-d tree branch of column_mapping (the fallback branch runs)', 'shipped / irregular geometries as inputs',
+                    'pairs with more than 6 freely placed columns per geometry (path explosion: 3x2 on 3x2 free exceeds the budget)',
+                    't2data.transfer_from between different geometries, the incon-file branch of t2data.transfer_from, rock-type transfer',
+                    'IEEE rounding (exact real arithmetic)', 'ties in nearest column/layer: any nearest one is accepted']
+    rep.assumptions += ['every column has at least one layer (surface above the bottom of the lowest layer)',
+                        'stub: norm() kept as its square, norms compared through squares (vx/snorm.py); scipy.spatial unimportable',
+                        'oracle: column centre = origin + partial sums + half spacing; layer centre likewise; block (l, k) exists iff surface_k > bottom_l; '
+                        'names rebuilt from the convention rule in harness/c19_common.py',
+                        'atmosphere blocks: source type 0 -> the single source block; types 1 & 1 -> block over the nearest column; '
+                        'otherwise no image is required (coordinator decision, matches fix 37ed9e4)',
+                        'generator names follow their column (top/bottom generators are named column + category) - well-formed input']
+    rep.functions.update(['mulgrids.py:mulgrid.column_mapping', 'mulgrids.py:mulgrid.layer_mapping', 'mulgrids.py:mulgrid.block_mapping',
+                          'mulgrids.py:mulgrid.column_surface_layer', 't2incons.py:t2incon.transfer_from', 't2data.py:t2data.transfer_from',
+                          't2data.py:t2data.transfer_generators_from', 't2data.py:t2data.transfer_rocktypes_from'])
+    rep.trusted += ['oracle formulas in harness/C19.py, naming rule in harness/c19_common.py']
     rep.process_failures()
     return rep.finish(rule='one obligation per (shape pair, atmosphere combination, convention, path, target block): '
                            'pc AND NOT(oracle relation) must be unsat; distinct = distinct formulas by z3 AST hash per task')
